@@ -77,14 +77,24 @@ HandleUltraBPP (rfbClient* client, int rx, int ry, int rw, int rh)
   
   /* allocate enough space to store the incoming compressed packet */
   if ( client->ultra_buffer_size < toRead ) {
+    /* buffer needs to be aligned on 4-byte boundaries; toRead comes from the
+       server: the round-up must not overflow */
+    int alignedSize = toRead;
     if ( client->ultra_buffer != NULL ) {
       free( client->ultra_buffer );
     }
-    client->ultra_buffer_size = toRead;
-    /* buffer needs to be aligned on 4-byte boundaries */
-    if ((client->ultra_buffer_size % 4)!=0)
-      client->ultra_buffer_size += (4-(client->ultra_buffer_size % 4));
-    client->ultra_buffer = (char*) malloc( client->ultra_buffer_size );
+    client->ultra_buffer = NULL;
+    client->ultra_buffer_size = 0;
+    if (toRead > 0x7FFFFFFF - 3) {
+      rfbClientErr("ultra error: remote sent too large a payload size\n");
+      return FALSE;
+    }
+    if ((alignedSize % 4)!=0)
+      alignedSize += (4-(alignedSize % 4));
+    client->ultra_buffer = (char*) malloc( alignedSize );
+    if(client->ultra_buffer == NULL)
+      return FALSE;
+    client->ultra_buffer_size = alignedSize;
   }
 
   /* Fill the buffer, obtaining data from the server. */
@@ -178,8 +188,11 @@ HandleUltraZipBPP (rfbClient* client, int rx, int ry, int rw, int rh)
     if ( client->ultra_buffer != NULL ) {
       free( client->ultra_buffer );
     }
+    client->ultra_buffer_size = 0;
+    client->ultra_buffer = (char*) malloc( toRead );
+    if(client->ultra_buffer == NULL)
+      return FALSE;
     client->ultra_buffer_size = toRead;
-    client->ultra_buffer = (char*) malloc( client->ultra_buffer_size );
   }
 
   /* Fill the buffer, obtaining data from the server. */
